@@ -126,7 +126,9 @@ class Mutator:
                     "u": u,
                     "x": x,
                     "logl": logl,
-                    "blobs": blobs,
+                    # Blobs are only tracked when they were declared (blobs_dtype): no
+                    # other step moves undeclared ones along with their particles.
+                    "blobs": blobs if self.have_blobs else None,
                     "assignments": assignments,
                     "calls": calls,
                     "steps": 1,
